@@ -5,7 +5,6 @@ import (
 	"go/constant"
 	"go/token"
 	"go/types"
-	"morlockverif/checker/internal/core"
 	"strings"
 
 	"golang.org/x/tools/go/ssa"
@@ -379,30 +378,156 @@ func runC10(c *Ctx) {
 		}
 	}
 
-	// R10-engine
+	c10Engine(c)
+}
+
+// mustStoredBefore: the keys for which a store has happened on EVERY path from the function's
+// entry to the target instruction (forward must-analysis, intersection at joins).
+func mustStoredBefore(fn *ssa.Function, target ssa.Instruction, keys func(ssa.Instruction) []string) map[string]bool {
+	in := map[*ssa.BasicBlock]map[string]bool{}
+	out := map[*ssa.BasicBlock]map[string]bool{}
+	gen := func(b *ssa.BasicBlock, upto ssa.Instruction, base map[string]bool) map[string]bool {
+		res := map[string]bool{}
+		for k := range base {
+			res[k] = true
+		}
+		for _, ins := range b.Instrs {
+			if ins == upto {
+				break
+			}
+			for _, k := range keys(ins) {
+				res[k] = true
+			}
+		}
+		return res
+	}
+	for changed, iter := true, 0; changed && iter < 50; iter++ {
+		changed = false
+		for _, b := range fn.Blocks {
+			var cur map[string]bool
+			if b == fn.Blocks[0] {
+				cur = map[string]bool{}
+			} else {
+				first := true
+				for _, p := range b.Preds {
+					o, seen := out[p]
+					if !seen {
+						continue // not computed yet: optimistic
+					}
+					if first {
+						cur = map[string]bool{}
+						for k := range o {
+							cur[k] = true
+						}
+						first = false
+					} else {
+						for k := range cur {
+							if !o[k] {
+								delete(cur, k)
+							}
+						}
+					}
+				}
+				if cur == nil {
+					continue
+				}
+			}
+			no := gen(b, nil, cur)
+			if len(no) != len(out[b]) || len(cur) != len(in[b]) || out[b] == nil {
+				changed = true
+			}
+			in[b], out[b] = cur, no
+		}
+	}
+	return gen(target.Block(), target, in[target.Block()])
+}
+
+// mustStoredAtReturn: fields stored on every path to every (normal) return of fn, looking into
+// the helpers fn calls (a call of a same-package helper stores what that helper must-store).
+func mustStoredAtReturn(fn *ssa.Function, fieldOf func(ssa.Instruction) (string, bool), depth int) map[string]bool {
+	keys := func(ins ssa.Instruction) []string {
+		if f, ok := fieldOf(ins); ok {
+			return []string{f}
+		}
+		if call, ok := ins.(*ssa.Call); ok && depth < 3 {
+			if callee := call.Call.StaticCallee(); callee != nil && callee.Blocks != nil && callee.Pkg == fn.Pkg && callee != fn {
+				var res []string
+				for k := range mustStoredAtReturn(callee, fieldOf, depth+1) {
+					res = append(res, k)
+				}
+				return res
+			}
+		}
+		return nil
+	}
+	var res map[string]bool
+	for _, b := range fn.Blocks {
+		if b == fn.Recover {
+			continue
+		}
+		ret, ok := b.Instrs[len(b.Instrs)-1].(*ssa.Return)
+		if !ok {
+			continue
+		}
+		// only successful returns count when the function reports an error
+		if n := len(ret.Results); n > 0 {
+			if v := returnedValue(ret, n-1); v != nil && types.Identical(v.Type(), types.Universe.Lookup("error").Type()) {
+				if cst, ok := v.(*ssa.Const); !ok || !cst.IsNil() {
+					continue
+				}
+			}
+		}
+		got := mustStoredBefore(fn, ret, keys)
+		if res == nil {
+			res = got
+		} else {
+			for k := range res {
+				if !got[k] {
+					delete(res, k)
+				}
+			}
+		}
+	}
+	if res == nil {
+		res = map[string]bool{}
+	}
+	return res
+}
+
+func c10Engine(c *Ctx) {
+	r := c.R
 	if reset := c.find("pkg/engine", "Engine", "Reset"); reset != nil {
 		halt := c.find("pkg/engine", "Engine", "haltSearchIfActive")
 		decode := c.find("pkg/board/fen", "", "Decode")
 		nb := c.find("pkg/board", "", "NewBoard")
-		hs, ds, bs := callsTo(reset, halt), callsTo(reset, decode), callsTo(reset, nb)
-		good := len(hs) == 1 && len(ds) == 1 && len(bs) == 1 && instrDominates(hs[0].(ssa.Instruction), bs[0].(ssa.Instruction)) && instrDominates(ds[0].(ssa.Instruction), bs[0].(ssa.Instruction))
-		stored := map[string]bool{}
-		// the successful return
-		var okRet ssa.Instruction
-		for _, b := range reset.Blocks {
-			if ret, ok := b.Instrs[len(b.Instrs)-1].(*ssa.Return); ok {
-				if v := returnedValue(ret, 0); v != nil {
-					if cst, ok := v.(*ssa.Const); ok && cst.IsNil() {
-						okRet = ret
-					}
+		// the three calls, in Reset or in the helpers it is split into, halt and decode first
+		evs := flatten(reset, func(ins ssa.Instruction, fr *flatFrame) (string, *types.Var, ssa.Value) {
+			if call, ok := ins.(*ssa.Call); ok {
+				switch call.Call.StaticCallee() {
+				case halt:
+					return "halt", nil, call
+				case decode:
+					return "decode", nil, call
+				case nb:
+					return "newboard", nil, call
 				}
 			}
-		}
+			return "", nil, nil
+		})
+		hs, ds, bs := evsOf(evs, "halt"), evsOf(evs, "decode"), evsOf(evs, "newboard")
+		good := len(hs) == 1 && len(ds) == 1 && len(bs) == 1 && flatBefore(hs[0], bs[0]) && flatBefore(ds[0], bs[0])
+		// replaced on every path to the successful return (whatever the branching or splitting looks like)
+		engT := c.P.NamedType("pkg/engine", "Engine")
+		engStores := map[ssa.Instruction]string{}
 		for _, fs := range allFieldStores(c.P) {
-			if fs.Fn == reset && fs.Named != nil && core.ObjName(fs.Named.Obj()) == "Engine" && okRet != nil && instrDominates(fs.Instr, okRet) {
-				stored[fs.Field] = true // replaced on every successful path
+			if fs.Named != nil && engT != nil && fs.Named.Obj() == engT.Obj() && fs.Fn.Pkg == reset.Pkg {
+				engStores[fs.Instr] = fs.Field
 			}
 		}
+		stored := mustStoredAtReturn(reset, func(ins ssa.Instruction) (string, bool) {
+			f, ok := engStores[ins]
+			return f, ok
+		}, 0)
 		good = good && stored["b"] && stored["tt"] && stored["noise"]
 		r.Check(good, "R10-engine", "Engine.Reset halts, decodes and replaces board, table and noise", c.pos(reset.Pos()), "", fmt.Sprintf("halt=%d decode=%d newboard=%d stores=%v", len(hs), len(ds), len(bs), stored))
 		if mv := c.find("pkg/engine", "Engine", "Move"); mv != nil {
